@@ -449,6 +449,38 @@ func rC01Splitter(w *World, r *Report) {
 	}
 }
 
+// isConvErrorEdge: block p ends in a test of another strconv conversion's error and reaches tgt on the failing side
+// (`if err1 != nil || err2 != nil` enters the same error block from two conversion failures).
+func isConvErrorEdge(p, tgt *ssa.BasicBlock) bool {
+	iff, ok := p.Instrs[len(p.Instrs)-1].(*ssa.If)
+	if !ok {
+		return false
+	}
+	bo, ok := iff.Cond.(*ssa.BinOp)
+	if !ok || (bo.Op != token.NEQ && bo.Op != token.EQL) {
+		return false
+	}
+	v := bo.X
+	if isNilConst(bo.X) {
+		v = bo.Y
+	} else if !isNilConst(bo.Y) {
+		return false
+	}
+	ex, ok := v.(*ssa.Extract)
+	if !ok || ex.Index != 1 {
+		return false
+	}
+	c, ok := ex.Tuple.(*ssa.Call)
+	if !ok || !strings.HasPrefix(calleeName(c), "strconv.") {
+		return false
+	}
+	k := 0
+	if bo.Op == token.EQL {
+		k = 1
+	}
+	return k < len(p.Succs) && p.Succs[k] == tgt
+}
+
 // R01.3
 func rC01ParserArgs(w *World, r *Report) {
 	ru := r.Rule("R01.3", "parser provenance: every argument of every Save call in the parser is the attached value of the current pair or iterator.Value(), unmodified", 3)
@@ -518,6 +550,7 @@ func rC01TypedStore(w *World, r *Report) {
 	for _, s := range sinks {
 		key := "Save/" + s.field.Name()
 		pos := w.IPos(s.in)
+		s.val = resolvePhi(s.val, s.in.Block()) // a value merged with its error by an inlined helper
 		switch s.field.Name() {
 		case "pString":
 			if elemOfParam(s.val, a) {
@@ -678,7 +711,7 @@ func rC01ErrDiscipline(w *World, r *Report) {
 		if errK < len(errIf.Block().Succs) {
 			tgt := errIf.Block().Succs[errK]
 			for _, p := range tgt.Preds {
-				if p != errIf.Block() {
+				if p != errIf.Block() && !isConvErrorEdge(p, tgt) {
 					good, why = false, "the conversion-error return at "+w.IPos(tgt.Instrs[0])+" is also entered from "+w.IPos(p.Instrs[len(p.Instrs)-1])+": text the converter accepts is rejected by an extra condition"
 				}
 			}
